@@ -378,7 +378,10 @@ def wire_family(ctx, rep, corr, comps, family, rng, cap, cap_all=False, only=Non
 
 
 def finding_corpus():
-    """(tag, composite, PDU hex, what): found by the proof of C03_reencode_nested, which needs `extent <= pdu.length` (hypothesis hext):
+    """(tag, composite, PDU hex, what): witnesses of recorded findings, each reported under its fixed signature (features = [tag]).
+    An OPEN finding (known_findings.jsonl) is expected to reproduce; a FIXED one must not (a fixed entry suppresses nothing: the witness
+    is a regression test of the repair and a VIOLATION on an unrepaired tree).
+    The first two were found by the proof of C03_reencode_nested, which needs `extent <= pdu.length` (hypothesis hext):
     the decoder's cursor jumps (to OFFSET of a dynamic-length field, to the next ITEM-BYTE-SIZE boundary of a static field) are not checked
     against the end of the PDU, so a PDU that ends before them decodes, and re-encoding the result yields a LONGER byte string"""
     u8, val = D.u8, D.value
@@ -389,6 +392,12 @@ def finding_corpus():
         ("static-field-padding-behind-pdu-end", D.Composite("RQ", "request", [val("sf", D.StaticField(1, 2, D.Struct([val("x", u8())])))]), "05",
          "a STATIC-FIELD item shorter than ITEM-BYTE-SIZE at the end of the PDU: decode(05) = {sf: [{x: 5}]} but encode = 05 00 (the item padding is "
          "emitted by the encoder, not required by the decoder)"),
+        # FIXED (fixes/c03-dtc-dop-encoder-compares-coded-value.patch); found by the proof of DtcLinLeaf.convOk (W23: forced clause `known_internal`)
+        ("dtc-dop-encoder-compares-coded-value",
+         D.Composite("RQ", "request", [D.sid(), val("d", D.DtcDop(D.Std("A_UINT32", 8), "A_UINT32", D.Linear(0, 2), [(0x10, "A"), (0x20, "B")]))]), "2208",
+         "DTC-DOP with a LINEAR compu method (trouble code = 2 * coded value), DTCs 0x10 'A' and 0x20 'B': decode(22 08) = {d: DTC A} but "
+         "encode(d=A) raised EncodeError 'Unknown diagnostic trouble code': DtcDop.encode_into_pdu looked the CODED value (0x08) up among the "
+         "(physical) trouble codes of the DTCs; encode(d=B) = 22 10 was accepted only because 0x10 happens to be the trouble code of A"),
     ]
 
 
@@ -403,7 +412,11 @@ def dtc_sources_family(ctx, rep, corr, rng):
         extra = {}
         for c, codes in chunk:
             eff = {x for x, _ in D.effective_dtcs(c.params[1].dop)}
-            extra[c.name] = [x for x in codes if x not in eff] + [0]
+            dd = c.params[1].dop
+            # raw (coded) values that are NOT described: the coded values of the document's other trouble codes, and — LINEAR — the described
+            # trouble codes themselves taken as coded values (what the unrepaired DTC-DOP encoder compared) unless their image is described
+            pre = [D.dtc_coded_of_code(dd, x) for x in codes if x not in eff] + [x for x in sorted(eff) if not isinstance(dd.compu, D.Identical)]
+            extra[c.name] = [x for x in pre if x is not None and 0 <= x < (1 << dd.dct.bitlen) and D.dtc_code_of_coded(dd, x) not in eff] + [0]
             ctx.histo("dtc_source_shape", next(iter(c.meta)).split(":", 1)[1])
         wire_family(ctx, rep, corr, [c for c, _ in chunk], "wire-enum-dtc-sources", rng, 40, only={("d",)}, extra_raws=extra)
         # the model is handed the flattened DTC list (D.effective_dtcs): tie it to what the loaded DTC-DOP describes
